@@ -380,18 +380,29 @@ func (m *Message) ReadFrom(reader io.Reader) (int64, error) {
 	}
 	totalBytesRead += 4
 
+	// the encoded message holds at least the message type
+	if encodedMessageLength == 0 {
+		return totalBytesRead, ErrInvalidPayloadType
+	}
+
 	err = binary.Read(reader, binary.LittleEndian, &m.Type)
 	if err != nil {
 		return totalBytesRead, err
 	}
 	totalBytesRead += 1
 
-	payload := make([]byte, encodedMessageLength-1)
-	bytesRead, err := io.ReadFull(reader, payload)
-	totalBytesRead += int64(bytesRead)
+	// the announced length is not trusted: the buffer grows with the bytes
+	// that really arrive
+	var payloadBuffer bytes.Buffer
+	bytesRead, err := io.CopyN(&payloadBuffer, reader, int64(encodedMessageLength-1))
+	totalBytesRead += bytesRead
 	if err != nil {
+		if err == io.EOF && bytesRead > 0 {
+			err = io.ErrUnexpectedEOF
+		}
 		return totalBytesRead, err
 	}
+	payload := payloadBuffer.Bytes()
 
 	var unmarshaler encoding.BinaryUnmarshaler
 
